@@ -9,6 +9,8 @@ for d in sorted(glob.glob(os.path.join(VERIF, "seeded", "*", "meta.json"))):
     first = m["runs"][0]["results"]
     first_any = sorted(c for c, v in first.items() if v["caught"])
     status = "yes" if first.get(own, {}).get("caught") else ("by " + ", ".join(first_any) + " only; own check after strengthening" if first_any else "no - after strengthening")
+    if m.get("superseded"):
+        status += " (superseded: " + m["superseded"] + ")"
     rows.append((name, own, m["needs_to_manifest"], ", ".join(m["caught_by"]) or "-", status))
 out = ["| seeded change (directory under `seeded/`) | property | needs, in order to manifest | caught by | own check caught it at first try |", "|---|---|---|---|---|"]
 out += ["| `%s` | %s | %s | %s | %s |" % r for r in rows]
@@ -17,5 +19,5 @@ s = open(p).read()
 marker = "<!-- seeded-table -->"
 head = s.split(marker)[0]
 open(p, "w").write(head + marker + "\n" + "\n".join(out) + "\n")
-n_first = sum(1 for r in rows if r[4] == "yes")
+n_first = sum(1 for r in rows if r[4].startswith("yes"))
 print(len(rows), "seeded changes;", n_first, "caught by their own check at the first try;", sum(1 for r in rows if r[3] != "-"), "caught now")
